@@ -158,6 +158,52 @@ func genC26(g *gen) {
 	g.line("Definition gen_used_path_require : string := %s.", coqString(usedBy(findFunc(bf, "StreamHandler", "requirePath"))))
 	g.line("Definition gen_used_path_upload : string := %s.", coqString(usedBy(findFunc(f, "StreamHandler", "WriteUploadedFile"))))
 	g.line("Definition gen_used_path_download : string := %s.", coqString(usedBy(findFunc(f, "StreamHandler", "ReadFileForDownload"))))
+	g.line("Definition gen_used_path_download_at_offset : string := %s.", coqString(usedBy(findFunc(f, "StreamHandler", "ReadFileForDownloadAtOffset"))))
+	// which fields of the request metadata the validations read (is_directory, compress, offset must not influence the download check)
+	metaFields := func(fd *ast.FuncDecl) []string {
+		set := map[string]bool{}
+		if fd != nil && fd.Body != nil {
+			ast.Inspect(fd.Body, func(n ast.Node) bool {
+				if se, ok := n.(*ast.SelectorExpr); ok && src(se.X) == "meta" {
+					set[se.Sel.Name] = true
+				}
+				return true
+			})
+		}
+		var out []string
+		for k := range set {
+			out = append(out, k)
+		}
+		sort.Strings(out)
+		return out
+	}
+	g.line("Definition gen_download_validation_meta_fields : list string := %s.", coqStringList(metaFields(findFunc(f, "StreamHandler", "ValidateDownloadMetadata"))))
+	g.line("Definition gen_upload_validation_meta_fields : list string := %s.", coqStringList(metaFields(findFunc(f, "StreamHandler", "ValidateUploadMetadata"))))
+	// no request changes the policy: outside NewStreamHandler nothing assigns to h.cfg and nothing re-slices the allow list
+	cfgWrites, cfgSlices := 0, 0
+	for _, pf := range parseDir("internal/filetransfer") {
+		ast.Inspect(pf, func(n ast.Node) bool {
+			switch x := n.(type) {
+			case *ast.AssignStmt:
+				for _, l := range x.Lhs {
+					if strings.HasPrefix(nospaceFs(src(l)), "h.cfg") {
+						cfgWrites++
+					}
+				}
+			case *ast.SliceExpr:
+				if strings.Contains(nospaceFs(src(x.X)), ".cfg.AllowedPaths") {
+					cfgSlices++
+				}
+			case *ast.CallExpr:
+				if fn := nospaceFs(src(x.Fun)); (fn == "sort.Strings" || fn == "append" || fn == "sort.Slice") && len(x.Args) > 0 && strings.Contains(nospaceFs(src(x.Args[0])), ".cfg.AllowedPaths") {
+					cfgSlices++
+				}
+			}
+			return true
+		})
+	}
+	g.line("Definition gen_policy_writes : N := %d.", cfgWrites)
+	g.line("Definition gen_policy_reslices : N := %d.", cfgSlices)
 	// ---- matching respects component boundaries
 	ipa := findFunc(f, "", "isPathAllowed")
 	calls := callNames(ipa)
